@@ -88,6 +88,9 @@ structure Th where
   popped : List Stmt := []    -- every event ever popped from this thread's transit buffer, in order
   discarded : Nat := 0        -- ordinary log statements refused by a dropping queue (the call returned false)
   blockedCalls : Nat := 0     -- ordinary log calls that had to wait on a blocking queue
+  -- unbounded-queue variants only (`Backend/UQueue.lean`): `q` is the consumer's node, `more` the nodes allocated after
+  -- it in allocation order (the last one is the producer's node); always `[]` in the bounded machine
+  more : List St := []
 
 instance : Inhabited Th := ⟨{ actor := 0, q := init 1 0 }⟩
 
@@ -129,6 +132,8 @@ structure Cfg where
   flushInvalidatedLoggers : Bool := true   -- sinks of loggers marked for removal (not erased yet) are still flushed (repaired, F12)
   cleanupKeepsUnreported : Bool := true   -- the clean-up leaves a context whose failure counter is not reported yet (repaired, F24)
   replayCatchesPerEvent : Bool := true   -- a backtrace replay catches a sink exception per stored event, reports it and goes on (repaired, F26)
+  flushInterval : Nat := 0               -- `sink_min_flush_interval` in ns; 0 = the idle pass always flushes
+  flushBeforeLoggerErase : Bool := true  -- `_cleanup_invalidated_loggers` flushes the sinks before it erases loggers (repaired, F33)
   deriving Repr
 
 structure BSt where
@@ -156,6 +161,7 @@ structure BSt where
   reported : Nat := 0                 -- sum of the counts reported through "dropped"/"blocked" notifications
   popLog : List Stmt := []            -- every event popped by the backend, newest first (global processing order)
   flagLog : List (Nat × Nat) := []    -- (flag, length of `log` when it was raised), newest first
+  lastFlush : Nat := 0                -- `_last_sink_flush_time` (read only when `cfg.flushInterval ≠ 0`)
 
 /-! ### small helpers -/
 
